@@ -164,6 +164,26 @@ def main(job):
     _cc.ShortCircuitingContext.__enter__ = lambda self: None
     _cc.ShortCircuitingContext.__exit__ = lambda self, *a: False
 
+    # CrossHair's model of callable() realizes its argument (value by value); symbolic numbers
+    # are never callable, so answer False for them without realizing (asyncstdlib.lru_cache
+    # asks callable(maxsize)).
+    from crosshair.libimpl import builtinslib as _bl
+    from crosshair.tracers import NoTracing as _NoTracing
+
+    _orig_callable = _cc._PATCH_REGISTRATIONS.get(callable)
+    _never_callable = tuple(getattr(_bl, n) for n in ("SymbolicInt", "SymbolicBool", "SymbolicFloat") if hasattr(_bl, n))
+
+    def _callable(x):
+        with _NoTracing():
+            if isinstance(x, _never_callable):
+                return False
+        x = _cc.realize(x)
+        with _NoTracing():
+            return callable(x)
+
+    if _orig_callable is not None:
+        _cc._PATCH_REGISTRATIONS[callable] = _callable
+
     zstat = {"queries": 0, "time": 0.0, "unknown": 0}
     orig_check = z3.Solver.check
 
